@@ -305,6 +305,27 @@ def gen_C19(ctx):
             s, _ = spell(r, t)
             vals.append("p/" + hx(s))
         out.append(case("cmp3 S %s %s %s" % tuple(vals), "cmp3"))
+    # triples that differ in ONE component only, drawn from values whose numeric, lexicographic and length orders
+    # disagree (a "natural" comparison of versions or names is not transitive together with the string order)
+    odd = ["1.9", "1.10", "1.10-rc1", "9", "10", "10a", "1a", "1.0", "1.00", "1", "", "a", "B", "a0", "a00", "\u00e9"]
+    import itertools as _it
+    trip = list(_it.permutations(odd, 3))
+    step3 = max(1, len(trip) // ctx.n(1500, 100000))
+    for (x, y, z) in trip[::step3]:
+        for field in ("ver", "name", "ns", "sub", "qv"):
+            vals = []
+            for w_ in (x, y, z):
+                if field == "ver":
+                    vals.append("p/" + hx("pkg:t/ns/n@" + w_.replace("\u00e9", "%C3%A9")))
+                elif field == "name":
+                    vals.append("p/" + hx("pkg:t/ns/n" + w_.replace("\u00e9", "%C3%A9") + "@1"))
+                elif field == "ns":
+                    vals.append("p/" + hx("pkg:t/ns" + w_.replace("\u00e9", "%C3%A9") + "/n@1"))
+                elif field == "sub":
+                    vals.append("p/" + hx("pkg:t/ns/n@1#s" + w_.replace("\u00e9", "%C3%A9")))
+                else:
+                    vals.append("p/" + hx("pkg:t/ns/n@1?k=v" + w_.replace("\u00e9", "%C3%A9")))
+            out.append(case("cmp3 %s %s %s %s" % (r.pick(["S", "S", "M", "P"]) if False else "S", vals[0], vals[1], vals[2]), "cmp3-odd"))
     # all pairs of builder values over a small universe
     import itertools
     vals = ["", "a", "a/b", "a&b=c", "b"]
